@@ -463,6 +463,41 @@ Definition deliver (f : eff) (m : msg) : eff * bool :=
       let '(f, _) := process_message f m true in (f, true)
   end.
 
+(* several messages are available to the task in one poll (a burst).  They are processed one after
+   the other as [deliver] does; if one of them makes the receive loop fail, the error-caused
+   wind-down still dispatches what is ALREADY in the source (binds ignored, errors ignored) before
+   it ends the task.  Returns the number of messages taken. *)
+Fixpoint drain_now (f : eff) (ms : list msg) : eff :=
+  match ms with
+  | [] => f
+  | m :: r => drain_now (fst (process_message f m true)) r
+  end.
+
+Fixpoint deliver_all (f : eff) (ms : list msg) : eff * N :=
+  match ms with
+  | [] => (f, 0)
+  | m :: r =>
+      let e := f_ep f in
+      match e_phase e, e_blocked e with
+      | Running, BlNone =>
+          let '(f1, res) := process_message f m false in
+          match res with
+          | RxContinue => let '(f2, n) := deliver_all f1 r in (f2, n + 1)
+          | RxClosed => let '(f2, n) := deliver_all (wind_down f1 0 true false false) r in (f2, n + 1)
+          | RxError c =>
+              let f2 := mkEff (f_ep (drop_blocked f1)) (f_out f1) (f_wakes f1) (f_closed f1) (f_done f1) in
+              let f2 := disallow_all f2 (e_slots (f_ep f2)) in
+              let f2 := with_ep f2 (set_tx_closed (f_ep f2) true) in
+              let f2 := mkEff (set_txq (f_ep f2) []) [] (f_wakes f2) true (f_done f2) in
+              (finish_task (drain_now f2 r) (100 + c), 1 + len r)
+          end
+      | WindDown6 _, _ =>
+          let '(f1, _) := process_message f m true in
+          let '(f2, n) := deliver_all f1 r in (f2, n + 1)
+      | _, _ => (f, 0)
+      end
+  end.
+
 (* the end of the source / a transport failure *)
 Definition source_event (f : eff) (cause : N) : eff :=
   let e := f_ep f in
@@ -523,6 +558,7 @@ Inductive label :=
 | LRead (e sid n : N)
 | LShutdown (e sid : N)
 | LDropStream (e sid : N)
+| LDeliverAll (d : N)         (* everything in flight on link d arrives before the receiver's task runs again *)
 | LDropDeliver (e sid : N)   (* the handle is dropped and the next inbound message reaches the task in the same poll *)
 | LDeliver (d : N)
 | LSendDgram (e fid port : N) (host data : list N)
@@ -925,6 +961,21 @@ Definition step (s : sys) (l : label) : sys * lout :=
               (mkSys (f_ep f) (s_b s) (s_la s ++ f_out f) rest,
                mkLout [0] (sort (f_wakes f)) (f_out f) (f_closed f) [] false (f_done f))
           else (s, mkLout [1] [] [] false [] false [])
+      end
+  | LDeliverAll d =>
+      let rx := if d =? 0 then 1 else 0 in
+      match (if d =? 0 then s_la s else s_lb s) with
+      | [] => (s, mkLout R_NA [] [] false [] false [])
+      | ms =>
+          let '(f, n) := deliver_all (start (get_ep s rx)) ms in
+          let f := settle f in
+          let rest := skipn (N.to_nat n) ms in
+          if d =? 0 then
+            (mkSys (s_a s) (f_ep f) rest (s_lb s ++ f_out f),
+             mkLout [0; n] (sort (f_wakes f)) [] false (f_out f) (f_closed f) (f_done f))
+          else
+            (mkSys (f_ep f) (s_b s) (s_la s ++ f_out f) rest,
+             mkLout [0; n] (sort (f_wakes f)) (f_out f) (f_closed f) [] false (f_done f))
       end
   | LDropDeliver e sid =>
       let f0 := start (get_ep s e) in
